@@ -1215,8 +1215,8 @@ func (ev *symEval) evalValue(fr *symFrame, st *symState, v ssa.Value) SV {
 			}
 			ds = append(ds, dir+ev.val(fr, s.Chan).Desc)
 		}
-		st.trace = append(st.trace, Event{Kind: "select", What: strings.Join(ds, " | "), In: fname(fr.fn)})
 		n := ev.fresh("select")
+		st.trace = append(st.trace, Event{Kind: "select", What: strings.Join(ds, " | "), In: fname(fr.fn), Note: n})
 		tup := x.Type().(*types.Tuple)
 		el := []SV{{K: "int", Desc: n + ".idx"}, {K: "bool", Desc: n + ".ok"}}
 		for i := 2; i < tup.Len(); i++ {
@@ -1331,4 +1331,54 @@ func fmtTrace(p Path) string {
 		s = append(s, e.String())
 	}
 	return strings.Join(s, " ; ") + " => " + p.Outcome + "(" + p.retDesc() + ")"
+}
+
+// selectFired tells, for every select a path passed, which communication was chosen on that path (as written in
+// the select event: "recv <chan>" / "send <chan>"), decided from the path's assumptions about the select's index
+// - independent of the textual order of the cases.
+func selectFired(p Path) []string {
+	var out []string
+	for _, e := range p.Trace {
+		if e.Kind != "select" || e.Note == "" {
+			continue
+		}
+		cases := strings.Split(e.What, " | ")
+		fired := -1
+		excluded := map[int]bool{}
+		for _, a := range p.Assume {
+			pre := "(" + e.Note + ".idx == "
+			if !strings.HasPrefix(a, pre) {
+				continue
+			}
+			rest := strings.TrimPrefix(a, pre)
+			var k int
+			var truth string
+			if i := strings.Index(rest, ")="); i > 0 {
+				fmt.Sscan(rest[:i], &k)
+				truth = rest[i+2:]
+			}
+			if truth == "true" {
+				fired = k
+			} else {
+				excluded[k] = true
+			}
+		}
+		if fired < 0 {
+			var left []int
+			for i := range cases {
+				if !excluded[i] {
+					left = append(left, i)
+				}
+			}
+			if len(left) == 1 {
+				fired = left[0]
+			}
+		}
+		if fired >= 0 && fired < len(cases) {
+			out = append(out, cases[fired])
+		} else {
+			out = append(out, "?")
+		}
+	}
+	return out
 }
